@@ -81,9 +81,16 @@ Definition l_tenc : list fld := full [FU 2; FU 1; FU 1; FB 16].
 Definition l_pssh (v : Z) (kids datalen : nat) : list fld :=
   full ([FB 16] ++ (if v =? 0 then [] else FU 4 :: rep kids [FB 16]) ++ [FU 4; FB datalen]).
 
-(* box type codes used by the runner: 0 mdhd 1 mvhd 2 tkhd 3 mehd 4 tfdt 5 mfhd 6 trex 7 tfhd 8 trun 9 saio 10 tenc 11 pssh *)
+Definition l_sidx (v : Z) (count : nat) : list fld :=
+  full ([FU 4; FU 4; FU (wide v); FU (wide v); FU 2; FU 2] ++ rep count [FU 4; FU 4; FU 4]).
+(* saiz: per-sample sizes follow only when default_sample_info_size = 0 (the runner passes that many) *)
+Definition l_saiz (flags : Z) (listed : nat) : list fld :=
+  full (opt flags 1 (FU 4) ++ opt flags 1 (FU 4) ++ [FU 1; FU 4] ++ rep listed [FU 1]).
+
+(* box type codes used by the runner: 0 mdhd 1 mvhd 2 tkhd 3 mehd 4 tfdt 5 mfhd 6 trex 7 tfhd 8 trun 9 saio 10 tenc 11 pssh 12 sidx 13 saiz *)
 Definition layout_of (t version flags : Z) (n1 n2 : nat) : list fld :=
   if t =? 0 then l_mdhd version else if t =? 1 then l_mvhd version else if t =? 2 then l_tkhd version
   else if t =? 3 then l_mehd version else if t =? 4 then l_tfdt version else if t =? 5 then l_mfhd
   else if t =? 6 then l_trex else if t =? 7 then l_tfhd flags else if t =? 8 then l_trun flags n1
-  else if t =? 9 then l_saio version flags n1 else if t =? 10 then l_tenc else l_pssh version n1 n2.
+  else if t =? 9 then l_saio version flags n1 else if t =? 10 then l_tenc else if t =? 12 then l_sidx version n1
+  else if t =? 13 then l_saiz flags n1 else l_pssh version n1 n2.
